@@ -65,10 +65,10 @@ PROPS = {
         'level': 'proof',
     },
     'C12': {
-        'modules': ['contracts.c12_legal', 'contracts.c04_model', 'contracts.c12_runtime'],
+        'modules': ['contracts.c12_legal', 'contracts.c04_model', 'contracts.c12_runtime', 'contracts.c12_names'],
         'standins': ['legality'],
         'trusted': PYVC_TRUST,
-        'assumptions': ['"g++ compiles it" has no contract formulation: bounded compile run', 'parser-side (prophy text) checks are exercised by the bounded stand-in'],
+        'assumptions': ['"g++ compiles it" has no contract formulation: bounded compile run', 'parser-side (prophy text) checks other than name uniqueness (c12_names) and sizer lookup (c12_legal) are exercised by the bounded stand-in'],
         'level': 'proof',
     },
     'C13': {
